@@ -333,6 +333,15 @@ class CertProperty:
         # among them is affected by known finding D8, the accepted languages per token type are not): chains of
         # different lengths over one class need several refinement rounds of the minimizer, and terminal_ids has
         # more entries than there are distinct token types
+        k = 0
+        for cls in ['[0-9]', '[ab]', 'a']:
+            for lens in [(4, 2, 3), (2, 3, 4), (3, 5), (2, 4, 6), (1, 3)]:
+                pats = [{'p': '%s{%d}' % (cls, n), 't': 1} for n in lens]
+                if k % 2:
+                    pats.append({'p': '-', 't': 2})
+                progs.append({'name': 'sharedfix%d' % k, 'modes': [{'name': 'M', 'patterns': pats, 'transitions': []}],
+                              'inputs': ['12345 123', 'aabab-ab']})
+                k += 1
         nst = 12 if tier == 'quick' else 120
         for i in range(nst):
             cls = rng.choice(['[0-9]', '[ab]', 'a', '.', '\\d'])
